@@ -1584,3 +1584,6 @@ M('C15', 'interpolation weights cast to the value dtype', DUF,
   "                    weight = weight * w_lo",
   "                    weight = (weight * w_lo).astype(self.values.dtype, copy=False)",
   'int64')
+M('C17', 'legacy min ignores the dtype argument', 'odl/util/ufuncs.py',
+  "            np.minimum, 'reduce', self.elem,\n            axis=axis, dtype=dtype, out=(out,), keepdims=keepdims)",
+  "            np.minimum, 'reduce', self.elem,\n            axis=axis, out=(out,), keepdims=keepdims)", 'ufuncs.min')
